@@ -72,8 +72,9 @@ EvalV(ve, env, w) ==
 \*   s   := []int{10,20,30} with capacity 4      arr := [3]int{10,20,30}
 \*   str := "a\u00e9\xffz" (bytes 97 195 169 255 122)   n := 3
 \*   ch  := buffered channel holding 10, 20, closed
+\*   w   := [8]int{}  target of the `=` form whose second operand is indexed by the first:  for kk, w[kk+1] = range s
 Heap0 == [s |-> [cells |-> <<10, 20, 30, 0>>, len |-> 3], arr |-> <<10, 20, 30>>,
-          str |-> <<97, 195, 169, 255, 122>>, n |-> 3, ch |-> <<10, 20>>]
+          str |-> <<97, 195, 169, 255, 122>>, n |-> 3, ch |-> <<10, 20>>, w |-> <<0, 0, 0, 0, 0, 0, 0, 0>>]
 Spawn(w, g, a, b) ==
   LET c1 == Alloc(w, a) c2 == Alloc(c1.w, b)
       c3 == Alloc(c2.w, 0 - 1) c4 == Alloc(c3.w, 0 - 1) c5 == Alloc(c4.w, 0 - 7)
@@ -98,10 +99,13 @@ IsYielding(s) == ~IsNone(s) /\ s.k \in {"yield", "yfrom"}
 
 SetK(w, i, k) == [w EXCEPT !.cos[i].k = k]
 
-\* initialiser of if/switch/for: None or a short declaration  n := n + d  -> [env, w]
+\* initialiser of if/switch/for: None, a short declaration  n := n + d,  or a short declaration of
+\* two names from ONE multi-valued expression  a, b := rt.Two(a, b)  (= a + 10, b + 1)   -> [env, w]
 ApplyInit(init, env, w) ==
-  IF IsNone(init) \/ init.k # "def" THEN [env |-> env, w |-> w]
-  ELSE LET al == Alloc(w, Get(w, env, init.n) + init.d) IN [env |-> [env EXCEPT ![init.n] = al.id], w |-> al.w]
+  IF IsNone(init) \/ init.k \notin {"def", "def2"} THEN [env |-> env, w |-> w]
+  ELSE IF init.k = "def" THEN LET al == Alloc(w, Get(w, env, init.n) + init.d) IN [env |-> [env EXCEPT ![init.n] = al.id], w |-> al.w]
+  ELSE LET a1 == Alloc(w, Get(w, env, "a") + 10) a2 == Alloc(a1.w, Get(w, env, "b") + 1) IN
+       [env |-> [env EXCEPT !.a = a1.id, !.b = a2.id], w |-> a2.w]
 
 \* switch: index of the selected clause (0 = none).  b is the value of the tag.
 SelectCase(cases, b) ==
@@ -172,7 +176,10 @@ Run(i, w) ==
                 \* `:=` declares fresh variables for the iteration; `=` assigns kk / vv of the function
                 ck == IF top.s.kf = "def" THEN Alloc(w1, nx.k) ELSE [id |-> 0, w |-> w1]
                 cv == IF top.s.vf = "def" THEN Alloc(ck.w, nx.v) ELSE [id |-> 0, w |-> ck.w]
-                w2 == IF top.s.kf = "asg" THEN Set(cv.w, c.penv, "kk", nx.k) ELSE cv.w
+                \* vf = "idx":  kk, w[kk+1] = k, v  -- as in an assignment statement the index operand on the
+                \* left is evaluated BEFORE kk is assigned: the store goes to w[old kk + 1]
+                wi == IF top.s.vf = "idx" THEN [cv.w EXCEPT !.cos[i].heap.w[Get(cv.w, c.penv, "kk") + 2] = nx.v] ELSE cv.w
+                w2 == IF top.s.kf = "asg" THEN Set(wi, c.penv, "kk", nx.k) ELSE wi
                 w3 == IF top.s.vf = "asg" THEN Set(w2, c.penv, "vv", nx.v) ELSE w2
                 benv == [top.env EXCEPT !.k = CASE top.s.kf = "def" -> ck.id [] top.s.kf = "asg" -> c.penv.kk [] OTHER -> c.penv.none,
                                         !.v = CASE top.s.vf = "def" -> cv.id [] top.s.vf = "asg" -> c.penv.vv [] OTHER -> c.penv.none] IN
@@ -196,13 +203,14 @@ Run(i, w) ==
     CASE s.k = "eff"   -> Run(i, SetK(Log(w, <<"e", s.id, Get(w, env, "a"), Get(w, env, "b")>>), i, k1))
       [] s.k = "effkv" -> Run(i, SetK(Log(w, <<"e", s.id, Get(w, env, "k"), Get(w, env, "v")>>), i, k1))
       [] s.k = "effkk" -> Run(i, SetK(Log(w, <<"e", s.id, Get(w, env, "kk"), Get(w, env, "vv")>>), i, k1))
+      [] s.k = "effw"  -> Run(i, SetK(Log(w, <<"e", s.id>> \o SubSeq(c.heap.w, 1, 5)), i, k1))
       [] s.k = "mut"   -> Run(i, [SetK(w, i, k1) EXCEPT !.cos[i].heap = Mutate(s, c.heap)])
       [] s.k = "range" -> \* the range expression is evaluated exactly once (xf = "call": through a logging closure)
                           LET w1 == IF s.xf = "call" THEN Log(w, <<"x", s.id, 0>>) ELSE w IN
                           IF Panicked(w1) THEN [st |-> "panic", w |-> w1]
                           ELSE Run(i, SetK(w1, i, <<[t |-> "range", s |-> s, st |-> RangeStart(s, c.heap, w.flags), env |-> env]>> \o k1))
       [] s.k = "inc"   -> Run(i, SetK(Set(w, env, s.n, Get(w, env, s.n) + 1), i, k1))
-      [] s.k = "def"   -> LET d == ApplyInit(s, env, w) IN
+      [] s.k \in {"def", "def2"} -> LET d == ApplyInit(s, env, w) IN
                           Run(i, SetK(d.w, i, <<[top EXCEPT !.ss = Tail(@), !.env = d.env]>> \o rest))
       [] s.k = "effx"  -> LET e == EvalV(s.v, env, w) IN           \* r.E(id, <expr>, 0): observes the value of an expression
                           IF Panicked(e.w) THEN [st |-> "panic", w |-> e.w]
@@ -234,7 +242,7 @@ Run(i, w) ==
       [] s.k = "block" -> Run(i, SetK(w, i, <<[t |-> "seq", ss |-> s.body, env |-> env]>> \o k1))
       [] s.k = "for"   -> LET ini == ApplyInit(s.init, env, w)
                               lp  == [t |-> "loop", c |-> s.c, post |-> s.post, body |-> s.body, env |-> ini.env] IN
-                          IF IsNone(s.init) \/ s.init.k = "def" THEN Run(i, SetK(ini.w, i, <<lp>> \o k1))
+                          IF IsNone(s.init) \/ s.init.k \in {"def", "def2"} THEN Run(i, SetK(ini.w, i, <<lp>> \o k1))
                           ELSE Run(i, SetK(w, i, <<[t |-> "seq", ss |-> <<s.init>>, env |-> env], lp>> \o k1))
       [] s.k = "break" -> Run(i, SetK(w, i, PastBreakTarget(k1)))
       [] s.k \in {"continue", "$endbody"} ->
